@@ -15,13 +15,13 @@ The property as stated (properties.jsonl):
 
 This statement is FALSE of the code as it is (and of this model of it).  The file therefore holds
   * the counter-example theorems, each an explicit schedule of the model
-    (`close_before_running_leaks`, `close_before_service_start_leaks`, `close_signal_dropped`,
-    `close_signal_dropped_after_restart`, `close_during_cooldown_restarts`) with what is permanent about each,
+    (`close_before_running_leaks`, `close_before_service_start_leaks`, `close_during_cooldown_restarts`; for the pre-fix
+    Close `close_signal_dropped_old`, `close_signal_dropped_after_restart_old`) with what is permanent about each,
   * the part that is true, for every schedule of any length: `close_stops_all_partial`
     (hypothesis: start-up has quiesced — `settled`: serviceStart parked in its select with the running flag
     set and the wrapped service in its loop; then Close, called at ANY later point — mid-tick, during a
-    cool-down, racing a panic — returns, and when the system comes to rest nothing is left, provided the
-    cancel signal was not dropped, which can only happen after a panic of the service's own goroutine),
+    cool-down, racing a panic — returns, and when the system comes to rest nothing is left), `stop_signal_never_lost`
+    (from a fresh recoverer, any timing: a Close that passed the running check always gets its stop signal through),
     `close_never_blocks` (from a fresh recoverer, any timing, any number of Close calls), `system_steps_terminate`,
     and containment of panics where they are raised: `process_panic_contained`, `worker_panic_contained`,
     `events_panic_contained` for the current tree, with `process_panic_escapes_old`, `worker_panic_escapes_old`,
@@ -45,8 +45,8 @@ private def KS : List Nat := explore oneClose 5000 [encode settled] []
 /-- what is checked on every member of `KS` (the conjuncts of `close_stops_all_partial` and of
     `service_goroutine_panic_never_resumes`) -/
 private def PS (c : Core) : Bool :=
-  (!terminal c || !decide (c.cpc = .ret) || c.dropped || (c.clean && decide (c.cres = .ok))) &&
-  (!c.dropped || c.panicked) && decide (c.gs ≤ 1) &&
+  (!terminal c || !decide (c.cpc = .ret) || (c.clean && decide (c.cres = .ok))) &&
+  !c.dropped && decide (c.gs ≤ 1) &&
   (!c.panicked || (decide (c.nRun = 0) && decide (c.nStarting = 0)))
 
 set_option maxRecDepth 100000 in
@@ -128,62 +128,112 @@ theorem close_before_service_start_leak_permanent :
   simp only [PB, Bool.and_eq_true, Bool.or_eq_true, Bool.not_eq_true', decide_eq_true_eq] at h
   exact ⟨h.1.1, h.1.2, h.2⟩
 
-/-! ### (c) Close's cancel signal dropped -/
+/-! ### (c) Close's stop signal: lost before the fix, never lost now -/
 
-/-- If serviceStart is between `running.Store(true)` and its `select` while Close runs, the nil returned by the
-    service's Start is buffered in `stopped` (capacity 1), Close's non-blocking send finds the channel full
-    and drops `errServiceContextCancelled`; serviceStart then reads nil, ignores it and waits for ever with the
-    flag still set.  The service itself is stopped; one goroutine is leaked and `Close` reported success. -/
-theorem close_signal_dropped :
-    runC init schedSignalDropped = some leakC ∧
+/-- PRE-FIX code (`stepCoreOld`: Close made one non-blocking send).  If serviceStart is between `running.Store(true)` and
+    its `select` while Close runs, the nil returned by the service's Start is buffered in `stopped` (capacity 1), Close's
+    non-blocking send finds the channel full and drops `errServiceContextCancelled`; serviceStart then reads nil, ignores
+    it and waits for ever with the flag still set.  The service itself is stopped; one goroutine is leaked and `Close`
+    reported success.  (Observed on the real pre-fix code with the `verif` hooks compiled in — the recorded trace was this
+    schedule — and repaired by "fix: recoverer: Close could lose its stop signal and leave the watcher running".) -/
+theorem close_signal_dropped_old :
+    runCOld init schedSignalDropped = some leakC ∧
     leakC.dropped = true ∧ leakC.cres = .ok ∧ leakC.running = true ∧ leakC.spc = .parked ∧ leakC.gs = 0 ∧ leakC.alive = true ∧
     (∀ sched c, Sched sysLabels sched → runC leakC sched = some c → c = leakC) :=
   ⟨by decide, by decide, by decide, by decide, by decide, by decide, by decide, terminal_stuck (by decide)⟩
 
-/-- the signal is lost on a settled recoverer too, after a panic and a full cool-down (schedule in Model) -/
-theorem close_signal_dropped_after_restart :
-    (runC settled schedSignalDroppedAfterRestart).map (fun c => (c.dropped, c.cres, c.running, c.spc, c.gs, terminal c)) =
+/-- PRE-FIX code: the signal was lost on a settled recoverer too, after a panic and a full cool-down (schedule in Model) -/
+theorem close_signal_dropped_after_restart_old :
+    (runCOld settled schedSignalDroppedAfterRestart).map (fun c => (c.dropped, c.cres, c.running, c.spc, c.gs, terminal c)) =
       some (true, .ok, true, .parked, 0, true) := by decide
+
+/-- the same two interleavings with the Close of the current code: the send attempt finds the channel full, the drain
+    attempt takes the obsolete message out, the next attempt succeeds, serviceStart receives the stop signal — clean -/
+theorem close_signal_not_dropped :
+    (runC init [.sInit, .sSpawn, .gCall, .gStarted, .sStore, .closeCall, .cLoad, .cSvcClose, .gStopSeen, .gSendNil, .cWaitDone,
+        .cSignal, .cDrain, .cSignal, .sSel, .sClear]).map (fun c => (c.clean, c.cres, c.dropped, terminal c)) = some (true, .ok, false, true) ∧
+    (runC settled [.gPanic, .gSendStopped, .coolElapsed, .closeCall, .cLoad, .cSvcClose, .cWaitDone, .sRespawn, .gCall, .gSendErr,
+        .cSignal, .cDrain, .cSignal, .sSel, .sClear]).map (fun c => (c.clean, c.cres, c.dropped, terminal c)) = some (true, .ok, false, true) := by
+  decide
+
+private def K0 : List Nat := explore oneClose 50000 [encode init] []
+private def K0L : List Nat := explore oneClose 50000 [encode initL] []
+private def PN (c : Core) : Bool :=
+  (!terminal c || !decide (c.cpc = .ret) || decide (c.cres = .notRunning) || (decide (c.spc = .done) && !c.running)) && !c.dropped
+set_option maxRecDepth 100000 in
+private theorem K0_facts :
+    (closedK oneClose K0 && K0.contains (encode init) && K0.all (fun k => PN (decode k))) = true := by decide +kernel
+set_option maxRecDepth 100000 in
+private theorem K0L_facts :
+    (closedK oneClose K0L && K0L.contains (encode initL) && K0L.all (fun k => PN (decode k))) = true := by decide +kernel
+
+/-- THE STOP SIGNAL IS NEVER LOST (current code, both service kinds).  From a fresh recoverer, for EVERY schedule — Close
+    at any point of start-up, of normal operation, of a cool-down, racing the service's own result, its panic, the restart —
+    and every state reached: Close never gives its signal up (`dropped` stays false), and whenever the system has come to
+    rest after a Close that passed the running check (it did not return "not running"), serviceStart HAS received
+    errServiceContextCancelled: it has cleared the flag and returned.  With `system_steps_terminate` (Close's loop included:
+    every failed send attempt is paid for by a message leaving the channel, and only finitely many can ever be sent) this
+    is: after such a Close, serviceStart eventually receives the stop signal, under the sole assumption that the Go
+    scheduler keeps running runnable goroutines.  (`ctx` is `context.Background()`: its `Done` case never fires.)
+    What this does NOT give is the end of the wrapped service when Close was refused by it — known finding (b). -/
+theorem stop_signal_never_lost (latched : Bool) :
+    ∀ sched c, Sched oneClose sched → runC (initOf latched) sched = some c →
+      c.dropped = false ∧
+      (terminal c = true → c.cpc = .ret → c.cres ≠ .notRunning → c.spc = .done ∧ c.running = false) := by
+  intro sched c hs hr
+  have key : PN c = true := by
+    cases latched with
+    | false =>
+      have hf := K0_facts
+      simp only [Bool.and_eq_true] at hf
+      exact allK hf.2 (closedK_sound hf.1.1 sched init c (inK_of_roundtrip hf.1.2 (by decide)) hs (by simpa [initOf] using hr))
+    | true =>
+      have hf := K0L_facts
+      simp only [Bool.and_eq_true] at hf
+      exact allK hf.2 (closedK_sound hf.1.1 sched initL c (inK_of_roundtrip hf.1.2 (by decide)) hs (by simpa [initOf] using hr))
+  simp only [PN, Bool.and_eq_true, Bool.or_eq_true, Bool.not_eq_true', decide_eq_true_eq, decide_eq_false_iff_not] at key
+  refine ⟨key.2, ?_⟩
+  intro ht hc hn
+  rcases key.1 with ((h | h) | h) | h
+  · simp [ht] at h
+  · exact absurd hc h
+  · exact absurd h hn
+  · exact h
 
 /-! ### what is true: Close on a recoverer whose start-up has quiesced -/
 
-/-- FULL STATEMENT (false, see (a) (b) (c)): for every schedule from `init` with one Close call at any point,
+/-- FULL STATEMENT (false, see (a) (b)): for every schedule from `init` with one Close call at any point,
     every terminal state with `cpc = ret` is `clean`.
 
     PROVED PART.  Hypothesis `settled` = the recoverer has set its running flag AND serviceStart is parked in its
     select AND the wrapped service has completed StartOnce and sits in its loop (start-up has quiesced; in the
-    harness: any Close at least one scheduler round after creation).  Then for EVERY schedule — Close called at any
+    harness: any Close issued at a virtual time > 0 after creation).  Then for EVERY schedule — Close called at any
     later point, any interleaving, ticks, a panic of the service goroutine before/while/after, the cool-down
     elapsing or not — and every state `c` reached:
      (i)   the system never comes to rest with Close half-way (Close returns: no deadlock);
-     (ii)  if it has come to rest after Close returned and the cancel signal was not dropped, nothing is left:
-           serviceStart returned, flag cleared, no recoverableStart / service goroutine, Close returned nil;
-     (iii) the signal can be dropped only if the service's own goroutine panicked before (schedule
-           `close_signal_dropped_after_restart`), so without such a panic (ii) is unconditional;
+     (ii)  if it has come to rest after Close returned, nothing is left: serviceStart returned, flag cleared, no
+           recoverableStart / service goroutine, Close returned nil — unconditionally since the stop signal can no
+           longer be dropped (before the fix: unless it was dropped, which needed a prior panic of the service goroutine);
+     (iii) Close never gives its signal up;
      (iv)  there is never more than one recoverableStart/service goroutine.
-    Missing for the full statement: start-up races (a) (b) (c), the dropped signal after a restart, and fairness
-    (that the Go scheduler does take the system's remaining steps — their number is bounded by
-    `system_steps_terminate`). -/
+    Missing for the full statement: the start-up races (a) (b) — known findings — and fairness (that the Go scheduler
+    does take the system's remaining steps — their number is bounded by `system_steps_terminate`). -/
 theorem close_stops_all_partial :
     ∀ sched c, Sched oneClose sched → runC settled sched = some c →
       (terminal c = true → c.cpc = .idle ∨ c.cpc = .ret) ∧
-      (terminal c = true → c.cpc = .ret → c.dropped = false → c.clean = true ∧ c.cres = .ok) ∧
-      (c.dropped = true → c.panicked = true) ∧
+      (terminal c = true → c.cpc = .ret → c.clean = true ∧ c.cres = .ok) ∧
+      c.dropped = false ∧
       c.gs ≤ 1 := by
   intro sched c hs hr
   have h := KS_all hs hr
   simp only [PS, Bool.and_eq_true, Bool.or_eq_true, Bool.not_eq_true', decide_eq_true_eq, decide_eq_false_iff_not] at h
   obtain ⟨⟨⟨h2, h3⟩, h4⟩, _⟩ := h
-  refine ⟨nb_terminal c (nb_run sched settled c nb_settled hr), ?_, ?_, h4⟩
-  · intro ht hc hd
-    rcases h2 with ((h2 | h2) | h2) | h2
-    · simp [ht] at h2
-    · exact absurd hc h2
-    · simp [hd] at h2
-    · exact h2
-  · intro hd; rcases h3 with h3 | h3
-    · simp [hd] at h3
-    · exact h3
+  refine ⟨nb_terminal c (nb_run sched settled c nb_settled hr), ?_, h3, h4⟩
+  intro ht hc
+  rcases h2 with (h2 | h2) | h2
+  · simp [ht] at h2
+  · exact absurd hc h2
+  · exact h2
 
 /-! #### the restartable service kind (result store: no StateMachine, close signal latched in a buffered channel) -/
 
@@ -191,8 +241,8 @@ private def KSL : List Nat := explore oneClose 5000 [encode settledL] []
 
 private def PSL (c : Core) : Bool :=
   (!terminal c || decide (c.cpc = .idle) || decide (c.cpc = .ret)) &&
-  (!terminal c || !decide (c.cpc = .ret) || c.dropped || (c.clean && decide (c.cres = .ok))) &&
-  (!c.dropped || c.panicked) && decide (c.gs ≤ 1) && !decide (c.cres = .notRunning) && !decide (c.cres = .svcRefused)
+  (!terminal c || !decide (c.cpc = .ret) || (c.clean && decide (c.cres = .ok))) &&
+  !c.dropped && decide (c.gs ≤ 1) && !decide (c.cres = .notRunning) && !decide (c.cres = .svcRefused)
 
 set_option maxRecDepth 100000 in
 private theorem KSL_facts :
@@ -201,16 +251,16 @@ private theorem KSL_facts :
 /-- `close_stops_all_partial` for the restartable kind — the one whose Start a panic can actually leave and re-enter:
     from a settled recoverer, for EVERY schedule with one Close at any point (in particular: after a panic of the
     service goroutine, anywhere inside the cool-down, at its very end, racing the restart, after the restart) and
-    every state reached: (i) the system never rests with Close half-way, (ii) at rest after Close, unless the cancel
-    signal was dropped, nothing is left and Close returned nil, (iii) a drop needs a prior panic, (iv) at most one
-    service goroutine, and (v) Close is NEVER refused — neither "not running" nor a refusal by the service: the
-    recoverer keeps `running` set throughout the cool-down, which is exactly what makes a Close in the cool-down
-    effective (the latched close signal stops the restarted Start, the buffered cancel stops serviceStart). -/
+    every state reached: (i) the system never rests with Close half-way, (ii) at rest after Close nothing is left and
+    Close returned nil, (iii) Close never gives its signal up, (iv) at most one service goroutine, and (v) Close is
+    NEVER refused — neither "not running" nor a refusal by the service: the recoverer keeps `running` set throughout
+    the cool-down, which is exactly what makes a Close in the cool-down effective (the latched close signal stops the
+    restarted Start, the buffered cancel stops serviceStart). -/
 theorem close_stops_all_partial_restartable :
     ∀ sched c, Sched oneClose sched → runC settledL sched = some c →
       (terminal c = true → c.cpc = .idle ∨ c.cpc = .ret) ∧
-      (terminal c = true → c.cpc = .ret → c.dropped = false → c.clean = true ∧ c.cres = .ok) ∧
-      (c.dropped = true → c.panicked = true) ∧
+      (terminal c = true → c.cpc = .ret → c.clean = true ∧ c.cres = .ok) ∧
+      c.dropped = false ∧
       c.gs ≤ 1 ∧ c.cres ≠ .notRunning ∧ c.cres ≠ .svcRefused := by
   intro sched c hs hr
   have hf := KSL_facts
@@ -218,20 +268,16 @@ theorem close_stops_all_partial_restartable :
   have h := allK hf.2 (closedK_sound hf.1.1 sched settledL c (inK_of_roundtrip hf.1.2 (by decide)) hs hr)
   simp only [PSL, Bool.and_eq_true, Bool.or_eq_true, Bool.not_eq_true', decide_eq_true_eq, decide_eq_false_iff_not] at h
   obtain ⟨⟨⟨⟨⟨h1, h2⟩, h3⟩, h4⟩, h5⟩, h6⟩ := h
-  refine ⟨?_, ?_, ?_, h4, h5, h6⟩
+  refine ⟨?_, ?_, h3, h4, h5, h6⟩
   · intro ht; rcases h1 with (h1 | h1) | h1
     · simp [ht] at h1
     · exact Or.inl h1
     · exact Or.inr h1
-  · intro ht hc hd
-    rcases h2 with ((h2 | h2) | h2) | h2
+  · intro ht hc
+    rcases h2 with (h2 | h2) | h2
     · simp [ht] at h2
     · exact absurd hc h2
-    · simp [hd] at h2
     · exact h2
-  · intro hd; rcases h3 with h3 | h3
-    · simp [hd] at h3
-    · exact h3
 
 /-- … with the two runs the harness drives on the real result store: a panic that escapes Start is followed, one
     cool-down later, by a restart after which the loop runs again; a Close anywhere inside that cool-down returns nil
@@ -279,7 +325,7 @@ theorem system_steps_terminate :
       have h2 := ih c1 c' (fun x hx => hs x (by simp [hx])) hr
       simp only [List.length_cons]; omega
 
-example : potential settled = 7 ∧ potential init = 13 := by decide
+example : potential settled = 8 ∧ potential init = 14 := by decide
 
 /-! ### Close during the restart cool-down -/
 
@@ -689,12 +735,12 @@ theorem spec_reports_v2_poll_panic_old (cs : Case) (t : Nat) (h : cs.panicSite =
     select (inside the Go runtime), the overlap of two goroutines' steps between their hook calls (hence "some
     reordering"), and everything outside recoverable.go (the services' own goroutines, tickers, the plugin's loops). -/
 theorem trace_sound {latched : Bool} {evs : Array Ev} {items : List Item} (h : traceOk latched evs items = true) :
-    ∃ t ls, replay evs { c := initOf latched } items = some t ∧ runC (initOf latched) ls = some t.c ∧
-      ∀ k, ∃ tk lk, replay evs { c := initOf latched } (items.take k) = some tk ∧ runC (initOf latched) lk = some tk.c ∧
+    ∃ t ls, replay false evs { c := initOf latched } items = some t ∧ runC (initOf latched) ls = some t.c ∧
+      ∀ k, ∃ tk lk, replay false evs { c := initOf latched } (items.take k) = some tk ∧ runC (initOf latched) lk = some tk.c ∧
         (latched = false → NB tk.c ∧ (terminal tk.c = true → tk.c.cpc = .idle ∨ tk.c.cpc = .ret)) := by
   unfold traceOk at h
   simp only [Bool.and_eq_true] at h
-  cases hr : replay evs { c := initOf latched } items with
+  cases hr : replay false evs { c := initOf latched } items with
   | none => simp [hr] at h
   | some t =>
     obtain ⟨ls, hls⟩ := replay_path items _ t hr
